@@ -396,7 +396,7 @@ def cases(draw, max_forms=2):
 
 def plan(tier):
     q = tier == "quick"
-    return [{"n": 220 if q else 5000} for _ in range(16)]
+    return [{"n": 450 if q else 5000} for _ in range(16)]
 
 
 def run_shard(spec, ctx):
